@@ -988,12 +988,17 @@ func mgGenProg(r *rng, feat map[string]int) (*mgProg, []mgSig) {
 		}
 		if sig.rets != nil {
 			rs := &mgStmt{K: "return"}
-			for k, t := range sig.rets {
-				if t == "int" && k == 0 {
+			usedAcc := false
+			for _, t := range sig.rets {
+				if t == "int" && !usedAcc {
+					usedAcc = true
 					rs.Es = append(rs.Es, g.mkBin("Mod", g.mkBin("Add", mgVarE(acc.id), g.genInt(1)), mgLit(c14M)))
 				} else {
 					rs.Es = append(rs.Es, g.genOf(t, 2))
 				}
+			}
+			if !usedAcc {
+				body = append(body, g.useStmt(acc))
 			}
 			body = append(body, rs)
 		} else {
